@@ -163,32 +163,41 @@ def scanBack (b : Buf) : Nat → Except Err Nat
     let c ← b.read i
     if isSep c then pure (i + 1) else scanBack b i
 
+/-- keep the `..`: `ret[pos++] = '.'; ret[pos++] = '.'; ret[pos++] = *cursor;` — the fixed code
+does not store `*cursor` when it is the terminator -/
+def normPush (fx : Bool) (b : Buf) (pos : Nat) (e : Nat) : Except Err (Option (Buf × Nat)) := do
+  let b ← b.write pos 46
+  let b ← b.write (pos + 1) 46
+  if fx ∧ e = 0 then return some (b, pos + 2)
+  let b ← b.write (pos + 2) e
+  return some (b, pos + 3)
+
+/-- `pos >= 3 && ret[pos-3] == '.' && ret[pos-2] == '.' && (ret[pos-1] == '/' || ret[pos-1] == '\\')` -/
+def endsDotDot (b : Buf) (pos : Nat) : Except Err Bool :=
+  if pos ≥ 3 then do
+    let c3 ← b.read (pos - 3)
+    if c3 ≠ 46 then pure false else
+    let c2 ← b.read (pos - 2)
+    if c2 ≠ 46 then pure false else
+    let c1 ← b.read (pos - 1)
+    pure (isSep c1)
+  else pure false
+
+/-- drop the last segment: `ret[pos-1]` must be a separator, `pos -= 2`, scan back -/
+def normPop (b : Buf) (pos : Nat) : Except Err (Option (Buf × Nat)) := do
+  let c1 ← b.read (pos - 1)
+  if !isSep c1 then return none
+  if pos < 2 then return none          -- pos -= 2; if (pos < 0)
+  let pos' ← scanBack b (pos - 1)      -- i = pos - 2
+  return some (b, pos')
+
 /-- the `..` case of the loop body; `e` is `*cursor` after `cursor += 2` (0 at the end of the
 path). `none` = `return MUGGLE_ERR_INVALID_PARAM`. -/
 def normDotDot (fx : Bool) (b : Buf) (pos : Nat) (e : Nat) : Except Err (Option (Buf × Nat)) := do
-  let push : Except Err (Option (Buf × Nat)) := do
-    let b ← b.write pos 46
-    let b ← b.write (pos + 1) 46
-    if fx ∧ e = 0 then return some (b, pos + 2)
-    let b ← b.write (pos + 2) e
-    return some (b, pos + 3)
-  if pos = 0 then push
+  if pos = 0 then normPush fx b pos e
   else
-    let isDD ← (if pos ≥ 3 then do
-        let c3 ← b.read (pos - 3)
-        if c3 ≠ 46 then pure false else
-        let c2 ← b.read (pos - 2)
-        if c2 ≠ 46 then pure false else
-        let c1 ← b.read (pos - 1)
-        pure (isSep c1)
-      else pure false)
-    if isDD then push
-    else
-      let c1 ← b.read (pos - 1)
-      if !isSep c1 then return none
-      if pos < 2 then return none          -- pos -= 2; if (pos < 0)
-      let pos' ← scanBack b (pos - 1)      -- i = pos - 2
-      return some (b, pos')
+    let isDD ← endsDotDot b pos
+    if isDD then normPush fx b pos e else normPop b pos
 
 /-- the `while (*cursor != '\0')` loop; the argument is the string from `cursor` on -/
 def normGo (fx : Bool) : CStr → Buf → Nat → Except Err (Option (Buf × Nat))
